@@ -59,7 +59,7 @@ impl Prop for C02 {
         "case = (segment list: sorted multiset of 1..=L ends drawn from a small lattice incl. adjacent floats, ±0, ±inf, duplicates; pieces are tag constants Poly0(i) or value pieces Poly1/Poly3/Log<Poly2>/IntOfLogPoly4; one non-NaN query from the list's alphabet: ends, ±1 ulp, midpoints, beyond both extremes, ±inf, ±MAX, ±0, random). Oracle: linear-scan selection model, result bits = selected piece evaluated directly. Non-trivial: >= 2 segments and x on an end, within one ulp of an end, or strictly inside the ends' range. Distinct by hash of (kind, ends, pool, x) bit patterns. Plus exhaustive scope: all sorted multisets of <= 4 ends over two 5-point lattices x full alphabet.".into()
     }
     fn cases(&self, tier: Tier) -> u64 {
-        tier.pick(300_000, 10_000_000)
+        tier.pick(1_500_000, 20_000_000)
     }
     fn strategy(&self, tier: Tier) -> BoxedStrategy<Case> {
         let l = tier.pick(8, 24);
